@@ -3,22 +3,23 @@
   `calc_stability_coefficient` as regenerated from their Python bodies (translate/t_funcs.py) are the model functions of
   BC/Model/Row.lean.  Generic in the number type; core-only.
 -/
+import BC.Lemmas.SrcTac
 import BC.Gen.Funcs
 import BC.Model.Row
 namespace BC.Props.C05
-open BC BC.Gen BC.Model
+open BC BC.Gen BC.Model BC.Lemmas
 set_option linter.unusedSectionVars false
 
 section
 variable {α : Type} [Add α] [Sub α] [Mul α] [Div α] [Neg α] [OfScientific α]
   [LT α] [DecidableLT α] [LE α] [DecidableLE α] [Fn α]
 
-theorem C05_src_get_correction (d o : α) : Src.get_correction d o = getCorrection d o := rfl
-theorem C05_src_energy (w v : α) : Src.calculate_energy w v = calculateEnergy w v := rfl
-theorem C05_src_ogw (w v : α) : Src.calculate_ogw w v = calculateOgw w v := rfl
-theorem C05_src_spin_drift (p : Proj α) (t : α) : Src.spin_drift p.stability p.twist t = spinDrift p t := rfl
+theorem C05_src_get_correction (d o : α) : Src.get_correction d o = getCorrection d o := by src_tie [Src.get_correction, getCorrection]
+theorem C05_src_energy (w v : α) : Src.calculate_energy w v = calculateEnergy w v := by src_tie [Src.calculate_energy, calculateEnergy]
+theorem C05_src_ogw (w v : α) : Src.calculate_ogw w v = calculateOgw w v := by src_tie [Src.calculate_ogw, calculateOgw]
+theorem C05_src_spin_drift (p : Proj α) (t : α) : Src.spin_drift p.stability p.twist t = spinDrift p t := by src_tie [Src.spin_drift, spinDrift]
 theorem C05_src_stability (tw l d w mv p t : α) :
-    Src.stability_coefficient tw l d w mv p t = stabilityCoefficient tw l d w mv p t := rfl
+    Src.stability_coefficient tw l d w mv p t = stabilityCoefficient tw l d w mv p t := by src_tie [Src.stability_coefficient, stabilityCoefficient]
 /-- `create_trajectory_row` with the `_new_feet/_new_fps/_new_rad/_new_ft_lb/_new_lb` constructors inlined: every column of the
     model row is the expression the source computes (the model adds the explicit ZeroDivisionError case `mach = 0`). -/
 theorem C05_src_row (time : α) (r v : Vec α) (velocity mach spin look df drag weight : α) (flag : Flags) (h : nz mach = true) :
@@ -26,7 +27,10 @@ theorem C05_src_row (time : α) (r v : Vec α) (velocity mach spin look df drag 
       = some (Src.row time r v velocity mach spin look df drag weight flag) := by
   unfold createRow
   simp only [h, Bool.not_true, Bool.false_eq_true, if_false]
-  rfl
+  first
+    | rfl
+    | (unfold Src.row getCorrection
+       (repeat' split) <;> first | rfl | contradiction | (simp_all; done))
 
 end
 end BC.Props.C05
